@@ -84,10 +84,17 @@ TInit == /\ tid \in 1..Len(Cases)
          /\ at = View(Cases[tid].init)
          /\ errs = {<<c, 0>> : c \in WFClauses(Cases[tid].init)}
 
+\* "mutate": the tree objects were changed in place by an operation validated elsewhere (e.g. delete_terminal,
+\* C11); the event carries the graph as it is now and the following answers are judged against that
 TStep == /\ ~done /\ l < Len(Case.events) /\ at.wf = {}
          /\ l' = l + 1
-         /\ errs' = errs \cup {<<c, l + 1>> : c \in EventErrs(Case.events[l + 1])}
-         /\ UNCHANGED <<tid, at, done>>
+         /\ LET e == Case.events[l + 1] IN
+            IF e.a = "mutate"
+            THEN /\ at' = View(e.g)
+                 /\ UNCHANGED errs      \* (an ill-formed result is the other operation's matter: the trace ends here)
+            ELSE /\ errs' = errs \cup {<<c, l + 1>> : c \in EventErrs(e)}
+                 /\ UNCHANGED at
+         /\ UNCHANGED <<tid, done>>
 
 TDone == /\ ~done /\ (l = Len(Case.events) \/ at.wf # {})
          /\ done' = TRUE
